@@ -14,9 +14,11 @@ from props import cons_common as cc   # noqa: E402
 
 # name: (prefix file, weak switch, invariant of the weakened spec to break, corridor, slack, output dir)
 TASKS = {
-    "ProposalResetsParts": ("C03/GoalCommitNoProposal__%s__0.json", "ProposalResetsParts", "CommitPartsMatch", None, 10, "C03"),
+    # from the initial state (no prefix), guided by a corridor
+    "ProposalResetsParts": (None, "ProposalResetsParts", "CommitPartsMatch", "CorridorStuck", 45, "C03"),
 }
-CONFIG_TAGS = ["eq0", "eq3", "w2"]
+# tag -> (powers, index of the faulty validator in the proposer rotation)
+CONFIGS = {"eq1": ([1, 1, 1, 1], 1), "w1": ([2, 2, 1, 1], 1)}
 
 
 def main():
@@ -27,14 +29,17 @@ def main():
     try:
         for t in tasks:
             pf, weak, inv, corridor, slack, outd = TASKS[t]
-            for tag in CONFIG_TAGS:
-                p = os.path.join(core.VERIF, "spec", "attacks", pf % tag)
+            for tag, (powers, pidx) in CONFIGS.items():
                 out = os.path.join(core.VERIF, "spec", "attacks", outd, "%s__%s__plan.json" % (t, tag))
-                if not os.path.exists(p) or os.path.exists(out):
+                if os.path.exists(out):
                     continue
-                with open(p) as f:
-                    a = json.load(f)
-                info = cc.run_driver(ctx, binp, {"mode": "info", "powers": a["powers"], "byz": [], "maxround": a["maxround"] + 1}, "info" + tag)
+                mr = 2
+                info = cc.run_driver(ctx, binp, {"mode": "info", "powers": powers, "byz": [], "maxround": mr + 1}, "info" + tag)
+                if pf:
+                    with open(os.path.join(core.VERIF, "spec", "attacks", pf % tag)) as f:
+                        a = json.load(f)
+                else:
+                    a = {"powers": powers, "byz": [info["proposers"][pidx]], "maxround": mr, "steps": [], "name": "-"}
                 steps, r = cc.net_plan(ctx, "Plan_%s_%s" % (t, tag), info, a["byz"], a["maxround"], a["steps"], [weak], inv,
                                        corridor=corridor, slack=slack, budget=budget)
                 if steps is None:
